@@ -169,7 +169,9 @@ def r2_evaluators(ctx):
     for fn in impls:
         bad = []
         n = 0
-        for size in range(0, 5):
+        for size, threads in [(sz, 4) for sz in range(0, 5)] + [(3, 2), (5, 2), (5, 3), (1, 1)]:
+            # (pool sizes: the verdict must not depend on how many workers share the slice - blocks of len / workers with a remainder,
+            # one worker, more workers than individuals)
             # equal solutions next to each other / apart (selection leaves clones of one parent in a population): every
             # individual is still evaluated on its own
             dup_tags = {2: [("s0", "s0")], 3: [("s0", "s0", "s2"), ("s0", "s1", "s1"), ("s0", "s1", "s0")]}.get(size, [])
@@ -181,10 +183,12 @@ def r2_evaluators(ctx):
             for pattern, tags in cases:
                 if size == 4 and pattern not in ((False,) * 4, (True, False, True, False)):
                     continue
+                if threads != 4 and (any(pattern) or len(set(tags)) != len(tags)):
+                    continue
                 n += 1
                 pop = tuple(Agg("adt", IND, "Individual", [Sym(tags[i]), some(Sym("old%d" % i)) if pattern[i] else NONE]) for i in range(size))
 
-                def oracle(interp, env, f, args, t, bb, path):
+                def oracle(interp, env, f, args, t, bb, path, threads=threads):
                     k = f.get("key", "")
                     nm = f.get("name")
                     if k == "mahf::problems::evaluate::ObjectiveFunction::objective" or (nm == "objective" and "ObjectiveFunction" in k):
@@ -193,7 +197,7 @@ def r2_evaluators(ctx):
                         interp.mstate["calls"] = interp.mstate.get("calls", ()) + (tag,)
                         return Sym("f(%s)" % tag)
                     if k == "rayon_core::current_num_threads" or k.endswith("::current_num_threads"):
-                        return 4          # a representative pool size (the verdict must not depend on it)
+                        return threads    # a representative pool size (the verdict must not depend on it)
                     # rayon: the parallel visit of all elements is modelled as the sequential one
                     if nm and nm.startswith("par_") and nm not in ("par_iter_mut", "par_iter") and "rayon" in k:
                         f2 = dict(f)
